@@ -24,7 +24,7 @@ CONSTANTS Scope,     \* "small" | "full"
                           \* parameter (today they do not: non-primitive entries are dropped for such requests - a named deviation;
                           \* the harness reads it off inspect.signature, and if a client offers it, it must work like any other)
 
-Fields == {"name", "count", "flag", "tags", "labels", "inner.name", "kind", "class", "request_id", "opt_request_id"}
+Fields == {"name", "count", "flag", "tags", "labels", "inner.name", "kind", "class", "blob", "request_id", "opt_request_id"}
 PresenceFields == {"opt_request_id"}        \* explicit presence (proto3 optional)
 NoVal == [f \in Fields |-> 0]
 
@@ -47,7 +47,7 @@ Methods ==
     [name |-> "CheckDep",    cs |-> FALSE, ss |-> FALSE, void |-> FALSE, dep |-> TRUE,
        flat |-> IF DepEnumOffered THEN <<"name", "tags", "kind">> ELSE <<"name", "tags">>, auto |-> {}] }
 \* fields each request type actually has (the dependency-package request is smaller)
-HasField(m, f) == IF m.dep THEN f \in {"name", "tags", "labels", "count", "kind"} ELSE TRUE
+HasField(m, f) == IF m.dep THEN f \in {"name", "tags", "labels", "count", "kind", "blob"} ELSE TRUE
 
 Forms == {"msg", "dict", "none", "kwargs", "both"}
 Transports == {"grpc", "grpc_asyncio", "rest"}
